@@ -97,10 +97,11 @@ H(prop="C11", name="c11_transform_source_total", crate="config-h", module="small
              "ast_grep_config::transform::transformation::parse_meta_var"],
   shape="STR", bounds="every length 0..3 (concrete loop) x symbolic bytes over {$, A, a, 0xC3, 0xA9} restricted to valid UTF-8; unwind 6",
   kf_keys=["transform_source_first_char"])
-H(prop="C14", name="c14_suppress_set_parse", crate="config-h", module="small_kernels",
-  decides="parse_suppression_set(comment) == ids listed after `ast-grep-ignore:` (trimmed), None iff nothing listed",
-  functions=["ast_grep_config::combined::parse_suppression_set"],
-  shape="STR", bounds="`// ast-grep-ignore` + every tail <= 7 bytes over {a,b,:,',',' '}, <= 4 ids; unwind 27")
+for t in range(6):
+    H(prop="C14", name=f"c14_suppress_set_parse_t{t}", crate="config-h", module="small_kernels", tier="quick" if t <= 3 else "thorough", timeout=1800,
+      decides="parse_suppression_set(comment) == ids listed after `ast-grep-ignore:` (trimmed), None iff nothing listed",
+      functions=["ast_grep_config::combined::parse_suppression_set"],
+      shape="STR", bounds=f"`// ast-grep-ignore` + every tail of exactly {t} bytes over {{a,b,:,',',' '}}; unwind 26")
 
 # ---------------------------------------------------------------- C19
 NAV = {
@@ -288,7 +289,7 @@ for n, tier in ((4, "quick"), (5, "thorough")):
     H(prop="C11", name=f"c11_string_case_split_{n}ch", crate="config-h", module="small_kernels", fq=f"small_kernels::proofs_case::c11_string_case_split_{n}ch", tier=tier,
       decides="string_case::split (word splitter of `convert`) never panics / slices off a char boundary; pieces are in-order non-overlapping sub-slices",
       functions=["ast_grep_config::transform::string_case::split", "ast_grep_config::transform::string_case::Delimiter::delimit", "ast_grep_config::transform::string_case::Delimiter::conclude"],
-      assumes=[ST_UTF8], shape="STR", bounds=f"all texts of <= {n} chars over {{a, A, _, E-acute(2 bytes, upper case)}}; unwind {2*n}", timeout=1800 if n == 4 else 5400)
+      assumes=[ST_UTF8], shape="STR", bounds=f"every byte length 0..{n} (concrete loop) x symbolic bytes over {{a, A, _, C3, 89}} restricted to valid UTF-8 (E-acute, upper case, 2 bytes); unwind {2*n}", timeout=1800 if n == 4 else 5400)
 
 # ---------------------------------------------------------------- C06 rewrite transformation
 for k, tier in ((2, "quick"), (3, "thorough")):
